@@ -1032,7 +1032,7 @@ PROPS = {
     "C02": dict(gen=gen_C02, needs=["harness"], extra=extra_C02,
                 rule="rev_comp and numeric_to_kmer on every code x < 4^k for k <= 7 (quick) / 9 (thorough), random codes for k up to 31 including 0, 4^k-1 and palindromes code(h ++ rc h); the k-mer iterator on seeded sequences and on their reverse complements; non-trivial = non-empty result; relations checked on the implementation's outputs: involution, stream reversal with swapped strands, equal canonical multisets",
                 assumptions=["codes >= 4^k are never generated (unspecified)", "bytes 0x00-0x03 are never generated"]),
-    "C03": dict(gen=gen_C03, needs=["harness", "cli"], sample_filter=lambda c: not c.startswith("cli") or " k=3" in c or "k=3," in c,
+    "C03": dict(gen=gen_C03, needs=["harness", "cli"], sample_filter=lambda c: (c.startswith("cli") and "k=3" in c) or (not c.startswith("cli") and int(c.split(" ")[1]) <= 5),
                 rule="kmer_pos_maps(k) and the header for every k in 1..=7 (quick) / 1..=8 (thorough), all 4^k entries enumerated (entries of non-canonical codes are not compared: unspecified); one case per (op, k), each non-trivial; plus the first line written by `kmertools comp oligo -H` for k in 3..=7 x {csv,tsv,spc,default} x {mapped, batch writer}",
                 assumptions=[], exhaustive=True),
     "C04": dict(gen=gen_C04, needs=["harness"], extra=extra_C04, sample_filter=lambda c: int(c.split(" ")[1]) <= 6 and len(c) < 900,
@@ -1046,7 +1046,8 @@ PROPS = {
     "C11": dict(gen=gen_C11, needs=["harness"], to_spec=lambda c, o: to_spec_cgrfile(c, to_spec_cgr(c, o)),
                 rule="record level: every byte value 0..255 alone and planted inside ACG?T (rejection clause, exhaustive), then seeded nucleotide strings over ACGTacgtUu of length 0..400 (thorough: some to 5000) with square sizes {1,2,3,16,1000,2^20,random}, one in five with a random byte planted; coordinates compared bit for bit with the Flocq binary64 model for every length and with the exact dyadic specification on the exactly representable prefix; non-trivial = at least one point or a rejection",
                 assumptions=["Rust f64 + and / are IEEE-754 binary64 round-to-nearest-even (Flocq's b64_plus, b64_div)"]),
-    "C12": dict(gen=gen_C12, needs=["harness"], extra=extra_C12, sample_filter=lambda c: int(c.split(" ")[1]) <= 4 and len(c) < 1500,
+    "C12": dict(gen=gen_C12, needs=["harness"], extra=extra_C12, sample_filter=lambda c: int(c.split(" ")[1]) <= 3 and len(c) < 800,
+                sample_limit={"quick": 40, "thorough": 150},
                 rule="record level: seeded records x k in 1..=7 x square sizes {1,2,3,9,16,1000,2^20,random} x raw/normalised; triples compared bit for bit (x, y with the Flocq model and the exact dyadic spec; f with the oligo model); each record also goes through the oligo vector: f must equal it and (x, y) must not depend on the record; non-trivial = some f non-zero",
                 assumptions=["Rust f64 arithmetic is IEEE-754 binary64 round-to-nearest-even"]),
     "C05": dict(gen=gen_C05, needs=["harness"], sample_limit={"quick": 32, "thorough": 96}, sample_maxlen=700, extra=extra_C05,
@@ -1079,7 +1080,7 @@ PROPS = {
                 nontrivial=lambda c, o: o.startswith("oob=0") and not o.endswith("writes=0|index=0") or "|" in o and c.startswith("osched"),
                 assumptions=["only the hooked sites are observed: an unsafe site without a hook is outside this check (the translator's inventory of unsafe sites is future work)",
                              "what the hardware does on an out-of-bounds write is not modelled: the check shows there is none"]),
-    "C15": dict(gen=gen_C15, needs=["harness", "cli"], extra=extra_C15, to_spec=to_spec_cli, sample_filter=cheap_cli, sample_limit={"quick": 24, "thorough": 80}, sample_maxlen=700,
+    "C15": dict(gen=gen_C15, needs=["harness", "cli"], extra=extra_C15, to_spec=to_spec_cli, sample_filter=cheap_cli, sample_limit={"quick": 12, "thorough": 60}, sample_maxlen=400,
                 rule="the kmertools binary built from the working tree over seeded option combinations of all five subcommands: presets, --counts, -H, -t {default,0,1,2,7,16}, --acgt, --alt-input, stdin input, short and long option names, every numeric option inside, at both ends of and just outside its documented range; exit status, presence of output and canonical output compared with the CLI model (regenerated ranges) and the CLI spec (documented ranges); each run repeated with another thread count (must agree) and, for oligo, through the library with the same settings (must agree); non-trivial = the run was accepted and produced output",
                 nontrivial=lambda c, o: o.startswith("exit=0|") and not o.endswith(("NOOUT", "|")),
                 assumptions=["argv construction from the settings and output canonicalisation are done by the harness (trusted)",
